@@ -121,6 +121,41 @@ theorem preset_wire (spec : Spec) (m : Material) (st : State) (bs : Bytes)
       · simp only [hy]
         exact congrArg some (resolve_map _ _ ys (marshal_each hb))
 
+/-- **the legacy version is a function of the spec alone.** `applyPreset`/`render` take the spec and the
+connection's material; the material has no version component — in particular `Config.MinVersion` /
+`Config.MaxVersion` as the caller set them are *not* an input (`SetTLSVers` replaces them by the spec's
+range before `makeClientHelloForApplyPreset` computes `hello.vers`). The tie pins them to every
+combination of TLS 1.0 … 1.3 (also below the spec's range, also inverted) and must still see this value. -/
+theorem legacy_version_from_spec (spec : Spec) (m : Material) (p : ParsedCH) (h : render spec m = some p) :
+    ∃ mn mx, versRange spec = some (mn, mx) ∧ p.vers = (if mx > 0x0303 then 0x0303 else mx) ∧
+      0x0301 ≤ p.vers ∧ p.vers ≤ 0x0303 := by
+  unfold render at h
+  cases hvr : versRange spec with
+  | none => simp [hvr] at h
+  | some r =>
+    obtain ⟨mn, mx⟩ := r
+    simp only [hvr] at h
+    cases hs : slots m (Grease.dedup m.seeds) spec.exts 0 m.keys with
+    | none => simp [hs] at h
+    | some sl =>
+      simp only [hs, Option.some.injEq] at h
+      subst h
+      refine ⟨mn, mx, rfl, rfl, ?_⟩
+      have hb : 0x0301 ≤ mx ∧ mx ≤ 0x0304 := by
+        unfold versRange at hvr
+        simp only at hvr
+        split at hvr
+        · cases hvr
+        · split at hvr
+          · cases hvr
+          · split at hvr
+            · cases hvr
+            · split at hvr
+              · cases hvr
+              · injection hvr with hvr; injection hvr with h1 h2; omega
+      simp only
+      split <;> omega
+
 /-! ## `ShuffleChromeTLSExtensions` -/
 
 section shuffle
